@@ -5,6 +5,7 @@ R1.2 volume fraction and every precipitate-content term carry ONE prefactor Vm_m
      times a third-order moment of the ARGUMENT distribution x[p]
 R1.4 content weights are the interfacial precipitate composition averaged over the two bounding faces
 R1.5 postProcess recomputes the dependent terms from the new distribution before appending, then updates the PSD
+R1.9 the working record handed out by copySlice shares no memory with the recorded histories
 R1.6 the only other store to the matrix composition is the documented clamp of negatives
 """
 from __future__ import annotations
@@ -319,6 +320,11 @@ def check(repo, ctx, index, purity):
             pn3 = U.params(f3)
             ok = len(c.args) == 3 and isinstance(c.args[1], ast.Name) and c.args[1].id == pn3[2] and U.chain(c.args[2]) == ('self', '_currY')
             ctx.check(ok, 'R1.5', BASE, q3, s, 'mass balance is evaluated on the distribution passed in', 'mass balance is not evaluated on the distribution passed in')
+
+
+    # ---------------------------------------------------------------- R1.9 the working record does not alias the histories
+    from .kwn import working_slice_is_fresh
+    working_slice_is_fresh(repo, ctx, 'R1.9')
 
 
 def _is_sum_over_phases(e, chain, axis0):
